@@ -42,6 +42,7 @@ fn c10_letters(tier: Tier) -> Vec<Op> {
         Op::RemoveFile(1),
         Op::SyncAll(0, Std),
         Op::SyncAll(0, Tokio),
+        Op::SyncAllRO(0),
         Op::SyncData(0),
         Op::SyncDir(3),
         Op::SyncDir(0),
@@ -93,6 +94,7 @@ fn c07_letters(tier: Tier) -> Vec<Op> {
         Op::SyncAll(0, Std),
         Op::SyncAll(1, Std),
         Op::SyncAll(0, Tokio),
+        Op::SyncAllRO(0),
         Op::SyncData(0),
         Op::SyncDir(3),
         Op::SyncDir(0),
